@@ -66,6 +66,7 @@ type runtime struct {
 	stackLimit   int
 	traceLimit   int
 	lck          sync.Mutex
+	halting      bool // an interrupt function panicked; script try/catch must not intercept it
 }
 
 func (rt *runtime) enterScope(scop *scope) {
@@ -83,6 +84,23 @@ func (rt *runtime) enterScope(scop *scope) {
 
 func (rt *runtime) leaveScope() {
 	rt.scope = rt.scope.outer
+	if rt.scope == nil {
+		rt.halting = false
+	}
+}
+
+// interrupt runs a function received on the Interrupt channel. If it panics,
+// the panic has to unwind the whole script, so it's marked as not catchable
+// by try / catch / finally until the runtime is back at rest.
+func (rt *runtime) interrupt(fn func()) {
+	completed := false
+	defer func() {
+		if !completed {
+			rt.halting = true
+		}
+	}()
+	fn()
+	completed = true
 }
 
 // FIXME This is used in two places (cloning).
@@ -122,6 +140,10 @@ func (rt *runtime) tryCatchEvaluate(inner func() Value) (tryValue Value, isExcep
 	// other = Something that changes flow (return, break, continue) that is not a throw
 	// Otherwise, some sort of unknown panic happened, we'll just propagate it.
 	defer func() {
+		if rt.halting {
+			// Panic from an interrupt function, let it propagate.
+			return
+		}
 		if caught := recover(); caught != nil {
 			if excep, ok := caught.(*exception); ok {
 				caught = excep.eject()
